@@ -567,3 +567,23 @@ mutant("benign-clean-vector-correct-memo", "clean", edits=[
 
     def severities(self):''')],
     note="a CORRECT per-instance memo keyed by output_prefix")
+
+# ------------------------------------------------------------------------------ C19: lock misuse (needs the lock seam)
+mutant("c19-lock-order-inversion-deadlock", "C19", edits=[
+    ("cvss/cvss3.py", "def round_up(value):",
+     "import threading\n\n_TABLE_LOCK = threading.Lock()\n_JSON_LOCK = threading.Lock()\n\n\ndef round_up(value):"),
+    ("cvss/cvss3.py", "        self.compute_isc_base()\n        self.compute_isc()\n        self.compute_esc()\n",
+     "        with _TABLE_LOCK:\n            with _JSON_LOCK:\n                self.compute_isc_base()\n        self.compute_isc()\n        self.compute_esc()\n"),
+    ("cvss/cvss3.py", "        base_severity, temporal_severity, environmental_severity = self.severities()\n",
+     "        with _JSON_LOCK:\n            with _TABLE_LOCK:\n                base_severity, temporal_severity, environmental_severity = self.severities()\n")],
+    note="two module-level locks taken in opposite order by the constructor and by as_json(): dead-lock under one particular interleaving only")
+mutant("benign-locked-memo", "clean", edits=[
+    ("cvss/cvss3.py", "def round_up(value):",
+     "import threading\n\n_POW_LOCK = threading.Lock()\n_POW = {}\n\n\ndef _power(base, exp):\n    with _POW_LOCK:\n        r = _POW.get((base, exp))\n    if r is None:\n        r = base ** exp\n        with _POW_LOCK:\n            if len(_POW) > 512:\n                _POW.clear()\n            _POW[(base, exp)] = r\n    return r\n\n\ndef round_up(value):"),
+    ("cvss/cvss3.py", """            self.isc = D("7.52") * (self.isc_base - D("0.029")) - D("3.25") * (
+                self.isc_base - D("0.02")
+            ) ** D("15")""",
+     """            self.isc = D("7.52") * (self.isc_base - D("0.029")) - D("3.25") * _power(
+                self.isc_base - D("0.02"), D("15")
+            )""")],
+    note="a CORRECT lock-protected process-wide memo (value read into a local under the lock)")
